@@ -83,6 +83,7 @@ fn scenario(rng: &mut Rng, sc: usize, phase: usize, upfront: bool, initiator: us
 	let mut closed_calls = [false, false];
 	let mut disc_done = false;
 	let mut fee_done = false;
+	let mut refusal_tries = 0;
 	let with_fee = phase >= 3 && sc % 2 == 1;
 	let mut released = 0u64;
 	let steps = 14 + rng.below(10) as usize;
@@ -107,6 +108,8 @@ fn scenario(rng: &mut Rng, sc: usize, phase: usize, upfront: bool, initiator: us
 				if linked && with_disc && !disc_done && step >= 2 && released == 0 { opts.push(Act::Disconnect); }
 				if !linked { opts.push(Act::Reconnect); opts.push(Act::Reconnect); }
 				if linked && !closed_calls[1 - initiator] && rng.chance(1, 6) { opts.push(Act::Close(1 - initiator)); }
+				// close_channel at a moment get_shutdown must refuse (update in flight, peer disconnected, shutdown already exchanged)
+				if refusal_tries < 2 && rng.chance(1, 4) { let x = rng.below(2) as usize; if alive[x] { refusal_tries += 1; opts.push(Act::Close(x)); opts.push(Act::Close(x)); } }
 				if let Some(p) = claimable(&net) { opts.push(Act::Claim(p)); }
 				// the funder's feerate moves before it has seen the peer's shutdown: an update_fee is pending while the shutdowns cross
 				if linked && phase >= 3 && with_fee && !fee_done && pend.iter().all(|p| p.is_empty()) && before[0].as_ref().map(|d| bit(d, 10) == 0).unwrap_or(false) { for _ in 0..4 { opts.push(Act::FeeBump); } }
@@ -120,7 +123,17 @@ fn scenario(rng: &mut Rng, sc: usize, phase: usize, upfront: bool, initiator: us
 		let mut delivered: Option<(&'static str, usize)> = None;
 		match &act {
 			Act::Close(x) => { closed_calls[*x] = true; let r = net.nodes[*x].node.close_channel(&net.chans[c].2, &net.ids[1 - *x]); net.pump(*x);
-				if r.is_err() { history.push(format!("close_channel@{} refused", x)); pos = net.trace.len(); before = (0..2).map(|x| dump(&net, c, x)).collect(); continue; } },
+				if r.is_err() {
+					// get_shutdown refused: the model (translated chain of refusals) must refuse too, and nothing may have changed / been sent
+					history.push(format!("close_channel@{} refused", x));
+					let leaked = net.trace[pos..].iter().any(|o| matches!(o, Obs::Msg { from, kind: "shutdown", .. } if from == x) || matches!(o, Obs::Update { node, .. } if node == x));
+					if leaked { rec.oracle_fail(format!("{}: node {} refused close_channel but sent a shutdown / generated a monitor update; history: {}", desc, x, history.join(" | "))); }
+					if alive[*x] { if let Some(d1) = dump(&net, c, *x) {
+						if before[*x].as_ref() != Some(&d1) { rec.oracle_fail(format!("{}: a refused close_channel changed the closing-gate state of node {}: {:?} -> {}", desc, x, before[*x], d1)); }
+						rec.case(&format!("cgop {} lshut 0 0", key(*x)), &format!("mon={} disc={} lsh={} rsh={} last={} parked={} timer={} ready={} out=refused", bit(&d1, 8), bit(&d1, 7), bit(&d1, 11), bit(&d1, 10), field(&d1, "last"), field(&d1, "pendcs"), field(&d1, "inflight"), field(&d1, "ready")),
+							&format!("cgop:close_channel-refused:mon={}:disc={}:lsh={}:rsh={}", bit(&d1, 8), bit(&d1, 7), bit(&d1, 11), bit(&d1, 10)), true);
+					} }
+					pos = net.trace.len(); before = (0..2).map(|x| dump(&net, c, x)).collect(); continue; } },
 			Act::Deliver(i, j) => { if let Some(k) = net.deliver(*i, *j) { delivered = Some((k, *j)); } },
 			Act::Complete(i, id) => { net.complete(*i, c, *id); },
 			Act::Disconnect => { disc_done = true; net.disconnect(0, 1); },
